@@ -78,22 +78,35 @@ fn c10_gridshift_inv_geoid() {
 // contract of grid::grids_at as seen by a caller (proved against the real function in C08.K.grids_at.first_hit):
 // it delivers some correction or none; here the zero correction, so that only the caller's control flow is explored
 static mut GA_CALLS: usize = 0;
+static mut GA_MISSED: bool = false;
+static mut GA_LAST: f64 = 0.0;
+static mut GA_PREV: f64 = 0.0;
+// the correction in x is 0 or 1/8 at each call (exact arithmetic on the probe tuple): the fixed-point iteration converges
+// exactly when two consecutive lookups deliver the same correction, and never when they keep alternating
 fn grids_at_contract(_grids: &[Arc<dyn Grid>], _coord: &Coor4D, _use_null_grid: bool) -> Option<Coor4D> {
     unsafe {
         GA_CALLS += 1;
     }
     if kani::any() {
-        Some(Coor4D([0.0; 4]))
+        let c = if kani::any() { 0.0 } else { 0.125 };
+        unsafe {
+            GA_PREV = GA_LAST;
+            GA_LAST = c;
+        }
+        Some(Coor4D([c, 0.0, 0.0, 0.0]))
     } else {
+        unsafe {
+            GA_MISSED = true;
+        }
         None
     }
 }
 
-//@h {"id":"C10.K.gridshift.inv.datum","props":["C10","C09"],"tier":"quick","kind":"bounded","bound":"one probe tuple; corrections delivered by the grid are zero; grids_at replaced by its contract (any hit/miss at each of the up to 11 calls); COMPLETE over hit/miss sequences and convergence or not in each of the 10 rounds","replay":"none","timeout":500,"text":"gridshift inv with a datum grid: whatever the grid does during the fixed-point iteration (outside coverage at the start, wandering off later, never converging), count <= 1; uncounted => tuple is NaN; counted => z and t unchanged"}
+//@h {"id":"C10.K.gridshift.inv.datum","props":["C10","C09","C08"],"tier":"quick","kind":"bounded","bound":"one probe tuple; the x correction delivered at each lookup is 0 or 1/8, y correction 0; grids_at replaced by its contract (any hit/miss and either correction at each of the up to 11 calls); COMPLETE over hit/miss/correction sequences, i.e. over convergence in any round, wandering off in any round, and never converging in the 10 rounds","replay":"none","timeout":900,"text":"gridshift inv with a datum grid: whatever the grid does during the fixed-point iteration (outside coverage at the start, wandering off later, never converging), count <= 1; a tuple is counted ONLY IF the iteration converged (two consecutive lookups agree) and no lookup missed, and then it is the input minus the last correction with z and t unchanged; otherwise it is not counted and all four elements are NaN"}
 #[kani::proof]
 #[kani::unwind(12)]
 #[kani::stub(crate::op::ParsedParameters::boolean, stub_boolean)]
-#[kani::stub(f64::hypot, libm_hypot)]
+#[kani::stub(f64::hypot, libm_hypot_axes)]
 #[kani::stub(crate::grid::grids_at, grids_at_contract)]
 fn c10_gridshift_inv_datum() {
     let null: bool = kani::any();
@@ -108,15 +121,19 @@ fn c10_gridshift_inv_datum() {
     let c = Coor4D([0.25, 0.5, z, t]);
     let mut data = [c];
     let r = inv(&op, &NoCtx, &mut data);
+    let (calls, missed, last, prev) = unsafe { (GA_CALLS, GA_MISSED, GA_LAST, GA_PREV) };
     assert!(r <= 1, "C10.K.count_le_n: never more successes than tuples");
     if r == 0 {
-        assert!(any_nan(&data[0]), "C10.K.gridshift.inv.uncounted_nan: a tuple that is not counted carries NaN (never returned unchanged while looking valid)");
+        assert!(all_nan(&data[0]), "C10.K.gridshift.inv.uncounted_nan: a tuple that is not counted carries NaN in all four elements (never returned unchanged or partly transformed while looking valid)");
     } else {
+        assert!(!missed, "C10.K.gridshift.inv.wandered_off: a tuple whose iteration left the grids is never counted");
+        assert!(calls >= 2 && last == prev, "C10.K.gridshift.inv.converged: a tuple is counted only when the iteration converged");
         assert!(data[0][2] == z && data[0][3] == t, "C10.K.gridshift.inv.frame.datum: z and t come back unchanged");
-        assert!(data[0][0] == 0.25 && data[0][1] == 0.5, "C10.K.gridshift.inv.zero: zero corrections leave x,y unchanged");
+        assert!(data[0][0] == 0.25 - last && data[0][1] == 0.5, "C10.K.gridshift.inv.value: the result is the input minus the correction at the result");
     }
     kani::cover!(r == 1, "convergence reachable");
-    kani::cover!(r == 0, "failure reachable");
+    kani::cover!(r == 0 && missed && calls > 2, "wandering off reachable");
+    kani::cover!(r == 0 && !missed, "non-convergence reachable");
 }
 
 //@h {"id":"C10.K.gridshift.nogrids","props":["C10","C09"],"tier":"quick","kind":"complete","replay":"none","timeout":1800,"text":"gridshift with an empty grid list (only @null / only missing optional grids): both directions leave the data bit-identical and count every tuple"}
